@@ -24,7 +24,7 @@ PASS = re.compile(
     r"^std::sync::Arc::<T>::new$|^std::boxed::Box::<T>::new$|std::convert::AsRef<.*>>::as_ref$|"
     r"^<T as std::convert::Into<U>>::into$|^<T as std::convert::From<T>>::from$|"
     r"^<T as std::convert::TryInto<U>>::try_into$|^std::iter::IntoIterator::into_iter$|"
-    r"<I as std::iter::IntoIterator>::into_iter$")
+    r"IntoIterator>::into_iter$|^std::iter::Iterator::(by_ref|rev|peekable|fuse)$")
 
 
 def origins(body, op, depth=0, seen=None, fieldpath=()):
